@@ -1,7 +1,7 @@
 (* C13 — property theorems only.  Each is closed by [exact <lemma>] and followed by
    Print Assumptions; the statements are pinned here so they cannot be quietly weakened. *)
 From Coq Require Import Permutation.
-From FB Require Import C13.Model C13.Theory C13.Theory2 C13.Theory3 C13.Theory4.
+From FB Require Import C13.Model C13.Theory C13.Theory2 C13.Theory3 C13.Theory4 C13.ModelAnn C13.TheoryAnn.
 
 (* merge_preserve_order terminates: the fuel handed over is always enough *)
 Theorem C13_mpo_fuel_suffices : forall (A : Type) (eqb : A -> A -> bool), eqb_ok eqb ->
@@ -517,3 +517,52 @@ Print Assumptions C13_examples.
 Theorem C13_examples4 : nonvacuous4.
 Proof. exact nonvacuous4_holds. Qed.
 Print Assumptions C13_examples4.
+
+(* ------------------------------------------------------------------------------------------
+   round 7: the side marks as the annotation TREES merge.rs builds (C13/ModelAnn.v: sided_annotation,
+   make_annotation, the EnvironmentInterfaces literal, FieldDescriptor::from_class) and the reader of
+   these trees (what a consumer, and the harness' proj_ann, takes a tree to say) *)
+
+(* a tree reads as @Environment of side sd iff it is exactly the tree sided_annotation(sd) builds; a tree
+   reads as the interface marks l iff it is exactly the EnvironmentInterfaces tree built for l (any names) *)
+Theorem C13_env_tree_exact : forall t sd, read_env t = Some sd <-> t = sided_annotation sd.
+Proof. exact env_tree_exact. Qed.
+Print Assumptions C13_env_tree_exact.
+
+Theorem C13_itfs_tree_exact : forall t marks, read_itfs t = Some marks <-> t = itfs_annotation marks.
+Proof. exact itfs_tree_exact. Qed.
+Print Assumptions C13_itfs_tree_exact.
+
+(* the abstract marks AEnv / AItfs of the model and the trees are in bijection; the two sides' trees differ *)
+Theorem C13_read_ann_bijection :
+  (forall a t o, tree_of a = Some t -> read_ann o t = a) /\
+  (forall t o a, read_ann o t = a -> tree_of a = Some t \/ a = AOther o) /\
+  sided_annotation Client <> sided_annotation Server.
+Proof. exact read_ann_bijection. Qed.
+Print Assumptions C13_read_ann_bijection.
+
+(* a one-sided class / member gets, after what it had, the tree of its side, which reads as that side only *)
+Theorem C13_one_sided_mark_trees : forall p m sd,
+  map tree_of (c_vis (mark_class p sd)) = map tree_of (c_vis p) ++ [Some (sided_annotation sd)] /\
+  map tree_of (m_inv (mark_member m sd)) = map tree_of (m_inv m) ++ [Some (sided_annotation sd)] /\
+  forall sd', read_env (sided_annotation sd) = Some sd' <-> sd' = sd.
+Proof. exact one_sided_mark_trees. Qed.
+Print Assumptions C13_one_sided_mark_trees.
+
+(* a differing class: after the client's invisible annotations ONE EnvironmentInterfaces tree iff some
+   interface is one-sided; it is what pushed_itfs_tree computes (compared with the real tree in stream
+   ann-itfs) and reads back as exactly the one-sided interfaces with their sides *)
+Theorem C13_class_merge_itf_tree : forall c s m,
+  NoDup (c_itfs c) -> NoDup (c_itfs s) -> class_merge c s = OK m ->
+  let ci := c_itfs c in let si := c_itfs s in
+  exists marks, NoDup marks /\
+    (forall sd i, In (sd, i) marks <-> (sd = Client /\ In i ci /\ ~ In i si) \/ (sd = Server /\ In i si /\ ~ In i ci)) /\
+    map tree_of (c_inv m) = map tree_of (c_inv c) ++ match marks with [] => [] | _ => [Some (itfs_annotation marks)] end /\
+    pushed_itfs_tree ci si = match marks with [] => None | _ => Some (itfs_annotation marks) end /\
+    read_itfs (itfs_annotation marks) = Some marks.
+Proof. exact class_merge_itf_tree. Qed.
+Print Assumptions C13_class_merge_itf_tree.
+
+Theorem C13_ann_examples : ann_examples.
+Proof. exact ann_examples_hold. Qed.
+Print Assumptions C13_ann_examples.
